@@ -163,7 +163,10 @@ func refRecognise(text string) recog {
 	case "ignore":
 		itemChar = func(c byte, _ bool) bool { return isAlnum(c) }
 	case "packageonly":
-		itemChar = func(c byte, _ bool) bool { return isWord(c) || c == '/' || c == '.' || c == '-' }
+		itemChar = func(c byte, _ bool) bool {
+			// the characters of Go import paths (cmd/go: letters, digits and -._~+ per element)
+			return isWord(c) || c == '/' || c == '.' || c == '-' || c == '~' || c == '+'
+		}
 	}
 	var items []string
 	bestN := -1 // number of items of the longest valid prefix
@@ -466,8 +469,8 @@ func checkC15(replay string) {
 	// fuzz: mutations of valid annotations
 	nFuzz := r.Pick(60000, 2000000)
 	seeds := []string{"// @immutable", "// @testonly", "// @mutable", "// @constructor New, Create", "// @constructor New", "// @implements &io.Reader", "// @implements Shape extra text",
-		"// @packageonly a, github.com/x/y-z.v2", "// @packageonly", "// @ignore IMM01, ctor", "// @Constructor New is not @constructor", "// @Packageonly a/b see @packageonly", "// @IGNORE IMM01 or @ignore", "// @ignore ALL because", "//@immutable", "//\t@constructor\tA ,B", "// @immutable - unlike @constructor, no args", "// @packageonly (see also @testonly)", "// @testonly @immutable"}
-	alphabet := " \t,&.@/_-$;:()abzAZ09é\f\v"
+		"// @packageonly a, github.com/x/y-z.v2", "// @packageonly", "// @packageonly git.sr.ht/~user/mod, a+b", "// @packageonly x~y text", "// @packageonly a+b/c, d", "// @ignore IMM01, ctor", "// @Constructor New is not @constructor", "// @Packageonly a/b see @packageonly", "// @IGNORE IMM01 or @ignore", "// @ignore ALL because", "//@immutable", "//\t@constructor\tA ,B", "// @immutable - unlike @constructor, no args", "// @packageonly (see also @testonly)", "// @testonly @immutable"}
+	alphabet := " \t,&.@/_-$;:()abzAZ09é\f\v~+"
 	nb := (nFuzz + batch - 1) / batch
 	base.Par(nb, 0, func(bi int) {
 		rg := base.NewRand(r.Seed, fmt.Sprintf("c15f-%d", bi))
